@@ -27,10 +27,21 @@ EXEC = "lace::runtime::RunState::execute"
 STDOUT_OK = {
     "lace::runtime::RunState::trap": "the program's own HALT banner (reached only through eval -> execute)",
     "lace::<output::NormalWriter as core::fmt::Write>::write_str": "Output::Normal, the program's channel (only constructed in runtime)",
-    "lace::debugger::command::reader::terminal::Terminal::handle_key": "interactive TTY reader (not a scripted session)",
-    "lace::debugger::command::reader::terminal::Terminal::read_line_raw": "interactive TTY reader (not a scripted session)",
     "lace::<term::Key as core::convert::TryFrom<crossterm::event::KeyEvent>>::try_from": "Ctrl+C on the interactive TTY",
 }
+
+
+# the interactive line editor draws its prompt and echo on stdout; it only exists when stdin is a terminal, i.e. not in a scripted session
+STDOUT_OK_PREFIX = {"lace::debugger::command::reader::terminal::Terminal::": "interactive TTY reader (not a scripted session)"}
+
+
+def _stdout_ok(n):
+    if n in STDOUT_OK:
+        return STDOUT_OK[n]
+    for p_, why in STDOUT_OK_PREFIX.items():
+        if n.startswith(p_):
+            return why
+    return None
 
 
 def run(ctx):
@@ -121,7 +132,7 @@ def run(ctx):
     printers = sorted(n for n in reach if n in prog.fns and "std::io::stdio::_print" in ctx.cg.callees(n))
     for n in printers:
         ctx.instance(1)
-        ok = n in STDOUT_OK
+        ok = _stdout_ok(n) is not None
         if not ok:
             # the `sudo` easter egg: only on the unknown-command path for the literal name "sudo", which is not in
             # C09's script alphabet (it is reported under C14.R2, where every line is quantified over)
@@ -131,7 +142,7 @@ def run(ctx):
             if pbs and guards and all(any(f.dominates(g[2], pb) for g in guards) for pb in pbs):
                 ok = True
                 ctx.note("stdout write in %s is dominated by `== \"sudo\"` (outside C09's command alphabet; see C14.R2)" % short(n))
-        ctx.oblig(ok, {"prints_to_stdout": short(n), "accepted_because": STDOUT_OK.get(n)}, "reviewed closed set")
+        ctx.oblig(ok, {"prints_to_stdout": short(n), "accepted_because": _stdout_ok(n)}, "reviewed closed set")
         if not ok:
             p = ctx.cg.path(pz.name, lambda x: x == n)
             ctx.violation("stdout|fn=%s" % short(n), prog.fns[n].file_line(),
